@@ -199,6 +199,24 @@ def run(ctx: Ctx) -> None:
                     why = f"the parameter has not been appended yet, so its index is len(params), not `{expr}`"
             ctx.ob("R1.6", "parser:CxxParser._parse_parameters|TemplateNonTypeParam(param_idx=)", ok, msg=why + ": the synthesized template parameter points at the wrong function parameter", node=c, mod=mod)
 
+    # promoted parameters belong to the declaration's own template header: with several headers
+    # (`template <..> template <..> void A<T>::f(auto)`) that is the LAST one of the list - the two promotion
+    # sites (abbreviated parameter, abbreviated return type) must agree on it
+    sites16 = []
+    for fname16, fn16 in pm.methods.items():
+        for c in walk_local(fn16):
+            if isinstance(c, ast.Call) and isinstance(c.func, ast.Attribute) and c.func.attr in ("append", "extend") and isinstance(c.func.value, ast.Attribute) and c.func.value.attr == "params" \
+                    and isinstance(c.func.value.value, ast.Subscript) and isinstance(c.func.value.value.value, ast.Name):
+                sl = c.func.value.value.slice
+                idx = -sl.operand.value if isinstance(sl, ast.UnaryOp) and isinstance(sl.op, ast.USub) and isinstance(sl.operand, ast.Constant) else sl.value if isinstance(sl, ast.Constant) else None
+                sites16.append((fname16, c, idx))
+    for fname16, c, idx in sites16:
+        ctx.ob("R1.6", f"parser:CxxParser.{fname16}|`{short(c, 50)}` adds to the last template header", idx == -1,
+               msg=f"`{short(c, 60)}` adds a promoted (abbreviated) template parameter to header [{idx}] of a list of template headers; the declaration's own header is the last one: with 'template <typename T> template <typename U> void A<T>::f(auto x)' the invented parameter is reported on the class's header",
+               node=c, mod=mod)
+    if len(sites16) < 2:
+        raise AnalysisError("anchor vanished: promotion of abbreviated template parameters into a list of template headers")
+
     # ---------------------------------------------------------------- R1.7
     ctx.rule("R1.7", "per-iteration flags re-initialised; namespace walk starts at the enclosing scope and descends every iteration", minimum=10)
     ctors = {c for c, _ in types.classes()}
